@@ -311,7 +311,7 @@ pub fn step_strategy(cfg: &Cfg, p: Profile) -> BoxedStrategy<Step> {
     ];
     let wrap = matches!(p, Profile::Wrap);
     v.push((
-        w(cfg.policy == 0, if wrap { 5 } else if lossy || cfg.events { 1 } else { 0 }),
+        w(cfg.policy == 0, if wrap { 5 } else if sessions { 3 } else if lossy || cfg.events { 1 } else { 0 }),
         prop_oneof![3 => 2u8..12, 2 => 60u8..70, 1 => 70u8..200].prop_map(|by| Step::TickJump { by }).boxed(),
     ));
     v.push((w(wrap, 2), any::<u8>().prop_map(|fine| Step::BigJump { fine }).boxed()));
